@@ -484,8 +484,8 @@ void h_sort_row(void)
 }
 """,
     entry='h_sort_row', mode='unwound', unwind='KMAX+4', model='none',
-    defines=TYPES_S8, variants=[{'KMAX': 5}], thorough_variants=[{'KMAX': 7}],
-    bound_text='every slice of length n <= 5 (thorough 7), any content incl. duplicates; n <= 0 included',
+    defines=TYPES_S8, variants=[{'KMAX': 5}], thorough_variants=[{'KMAX': 6}],  # KMAX 7 measured: > 2400 s
+    bound_text='every slice of length n <= 5 (thorough 6), any content incl. duplicates; n <= 0 included',
     assumptions=['A-bound: nothing is claimed beyond the stated bound', 'A-inst: Col = signed char, Val = unsigned char (compared / moved only)'],
     replay='ioadapt', timeout=300, witness=['w_col', 'w_val', 'w_n'],
 )
